@@ -7,6 +7,9 @@
     [CScen]: one submission under one blacklist, fork configuration and height
     with what every enforcement point returned (see [obs]).
 
+    [CHist]: a history of blacklist loads and submissions in one process
+    (see [hstep]).
+
     [tab] is the table of double SHA-256 checksums (first four bytes) of the
     21-byte prefixes of all 25-byte base58 decodings occurring in the case,
     computed by the harness with crypto/sha256. *)
@@ -37,76 +40,174 @@ Record obs := mkObs {
   o_dblock : option bool            (* delayed tx embedded in a block: cached by addDelayTx *)
 }.
 
-Inductive case :=
-| CParse (tab : cktab) (L : list str) (panics : bool)
-         (probes : list (str * bool)) (raws : list (bytes * bool))
-| CName (e r : bytes)
-| CScen (tab : cktab) (L : list str) (e : env) (b : bundle) (o : obs).
-
 Definition bools_eqb := list_eqb Bool.eqb.
 Definition ns_eqb := list_eqb N.eqb.
 
-Definition opt_check {A} (o : option A) (f : A -> bool) : bool :=
-  match o with None => true | Some a => f a end.
+(** one observation at one enforcement point *)
+Inductive point :=
+| PtPred (tx imm : list bool) (txs txsimm nilcfg : bool)   (* the exported predicates, as in [obs] *)
+| PtExec (base wth : list N)
+| PtProd (kept : N) (filler : bool)
+| PtPool (pre_ok : bool) (base wth : reply)
+| PtDelay (base r : reply)       (* base: the reply of the delay cache itself (ROk, or not ROk when the hash is already cached) *)
+| PtDblock (cached : bool).
 
-(** first failing enforcement point of the spec: 0 none, 1 exported predicates,
-    2 executor, 3 producer, 4 pool, 5 delay entry, 6 delay via block *)
-Definition first_fail (l : list (N * bool)) : N :=
-  match find (fun p => negb (snd p)) l with Some (k, _) => k | None => 0 end.
+Definition opt_list {A} (o : option A) (f : A -> point) : list point :=
+  match o with None => [] | Some a => [f a] end.
+
+Definition points_of (o : obs) : list point :=
+  PtPred (o_tx o) (o_imm o) (o_txs o) (o_txsimm o) (o_nilcfg o) ::
+  opt_list (o_ex o) (fun p => PtExec (fst p) (snd p)) ++
+  opt_list (o_prod o) (fun p => PtProd (fst p) (snd p)) ++
+  opt_list (o_pool o) (fun p => PtPool (fst (fst p)) (snd (fst p)) (snd p)) ++
+  opt_list (o_delay o) (fun r => PtDelay ROk r) ++
+  opt_list (o_dblock o) (fun c => PtDblock c).
+
+(** enforcement point numbers: 1 exported predicates, 2 executor, 3 producer,
+    4 pool, 5 delay entry, 6 delay via block *)
+Definition pt_idx (p : point) : N :=
+  match p with
+  | PtPred _ _ _ _ _ => 1 | PtExec _ _ => 2 | PtProd _ _ => 3
+  | PtPool _ _ _ => 4 | PtDelay _ _ => 5 | PtDblock _ => 6
+  end.
+
+Section Points.
+  Variable cks : bytes -> bytes.
+  Variable L : list str.
+  Variable set : list bytes.
+  Variable e : env.
+  Variable b : bundle.
+
+  (* the implementation's observation equals the model's *)
+  Definition pt_model (p : point) : bool :=
+    let ms := members b in
+    let H := e_H e in let h := e_h e in
+    match p with
+    | PtPred tx imm txs txsimm nilcfg =>
+        bools_eqb tx (map (chk_tx cks set H h) ms) &&
+        bools_eqb imm (map (chk_imm cks set) ms) &&
+        Bool.eqb txs (chk_txs cks set H h ms) &&
+        Bool.eqb txsimm (chk_txs_imm cks set ms) &&
+        negb nilcfg
+    | PtExec base wth => ns_eqb wth (exec_receipts cks set e b base)
+    | PtProd kept filler =>
+        (kept =? (if prod_rejects cks set e b then 0 else len (map (fun _ => 0) ms))) && filler
+    | PtPool pre_ok base wth =>
+        if pre_ok then reply_eqb wth (pool_reply cks set b base)
+        else reply_eqb wth base && negb (reply_eqb base ROk)
+    | PtDelay base r => reply_eqb r (delay_reply cks set b base)
+    | PtDblock c => Bool.eqb c (negb (delay_rejects cks set b))
+    end.
+
+  (* the implementation's observation satisfies the spec *)
+  Definition pt_spec (p : point) : bool :=
+    let ms := members b in
+    match p with
+    | PtPred tx imm txs txsimm _ =>
+        forallb (fun q => spec_pred_gated cks L e (fst q) (snd q)) (combine ms tx) &&
+        forallb (fun q => spec_pred_imm cks L (fst q) (snd q)) (combine ms imm) &&
+        (if active e && existsb (tx_touches cks L) ms then txs else true) &&
+        (if existsb (tx_touches cks L) ms then txsimm else true)
+    | PtExec _ wth => spec_exec cks L e b wth
+    | PtProd kept _ => spec_prod cks L e b kept
+    | PtPool _ _ wth => spec_entry cks L e b wth
+    | PtDelay _ r => spec_entry cks L e b r
+    | PtDblock c => spec_cached cks L e b c
+    end.
+
+  (** first failing enforcement point of the spec (0 = none) *)
+  Definition first_fail (ps : list point) : N :=
+    match find (fun p => negb (pt_spec p)) ps with Some p => pt_idx p | None => 0 end.
+
+  (* one submission observed at some enforcement points, in this order *)
+  Definition check_points (ps : list point) : verdict :=
+    let m := forallb pt_model ps in
+    let ff := first_fail ps in
+    let s := ff =? 0 in
+    (* known findings: narrow signatures *)
+    let ot := outer_touches cks L b in
+    let it := inner_touches cks L e b in
+    let head_t := match head b with Some t => tx_touches cks L t | None => false end in
+    let is_group := match b with BGroup _ => true | _ => false end in
+    let code :=
+      if s then 0
+      else if (3 <=? ff) && negb ot && it then 1          (* proxied: inner touches, entry points look at the outer tx only *)
+      else if (5 <=? ff) && is_group && negb head_t && ot then 2   (* delayed group: only the head is looked at *)
+      else if (ff =? 2) && ot && negb it && (match inner_of e b with Some _ => true | None => false end) then 3
+                                                          (* proxied: executor looks at the inner tx only *)
+      else 0 in
+    (m, s, code).
+End Points.
 
 Definition check_scen (tab : cktab) (L : list str) (e : env) (b : bundle) (o : obs) : verdict :=
   let cks := cks_of tab in
   match parse_list cks L with
   | None => (false, true, 0)
-  | Some set =>
-      let ms := members b in
-      let H := e_H e in let h := e_h e in
-      (* model *)
-      let m_pred :=
-        bools_eqb (o_tx o) (map (chk_tx cks set H h) ms) &&
-        bools_eqb (o_imm o) (map (chk_imm cks set) ms) &&
-        Bool.eqb (o_txs o) (chk_txs cks set H h ms) &&
-        Bool.eqb (o_txsimm o) (chk_txs_imm cks set ms) &&
-        negb (o_nilcfg o) in
-      let m_ex := opt_check (o_ex o) (fun p => ns_eqb (snd p) (exec_receipts cks set e b (fst p))) in
-      let m_prod := opt_check (o_prod o) (fun p =>
-          (fst p =? (if prod_rejects cks set e b then 0 else len (map (fun _ => 0) ms))) && snd p) in
-      let m_pool := opt_check (o_pool o) (fun p =>
-          match p with
-          | (pre_ok, base, wth) =>
-              if pre_ok then reply_eqb wth (pool_reply cks set b base)
-              else reply_eqb wth base && negb (reply_eqb base ROk)
-          end) in
-      let m_delay := opt_check (o_delay o) (fun r => reply_eqb r (delay_reply cks set b ROk)) in
-      let m_dblock := opt_check (o_dblock o) (fun c => Bool.eqb c (negb (delay_rejects cks set b))) in
-      let m := m_pred && m_ex && m_prod && m_pool && m_delay && m_dblock in
-      (* spec *)
-      let s_pred :=
-        forallb (fun p => spec_pred_gated cks L e (fst p) (snd p)) (combine ms (o_tx o)) &&
-        forallb (fun p => spec_pred_imm cks L (fst p) (snd p)) (combine ms (o_imm o)) &&
-        (if active e && existsb (tx_touches cks L) ms then o_txs o else true) &&
-        (if existsb (tx_touches cks L) ms then o_txsimm o else true) in
-      let s_ex := opt_check (o_ex o) (fun p => spec_exec cks L e b (snd p)) in
-      let s_prod := opt_check (o_prod o) (fun p => spec_prod cks L e b (fst p)) in
-      let s_pool := opt_check (o_pool o) (fun p => spec_entry cks L e b (snd p)) in
-      let s_delay := opt_check (o_delay o) (fun r => spec_entry cks L e b r) in
-      let s_dblock := opt_check (o_dblock o) (fun c => spec_cached cks L e b c) in
-      let ff := first_fail [(1, s_pred); (2, s_ex); (3, s_prod); (4, s_pool); (5, s_delay); (6, s_dblock)] in
-      let s := ff =? 0 in
-      (* known findings: narrow signatures *)
-      let ot := outer_touches cks L b in
-      let it := inner_touches cks L e b in
-      let head_t := match head b with Some t => tx_touches cks L t | None => false end in
-      let is_group := match b with BGroup _ => true | _ => false end in
-      let code :=
-        if s then 0
-        else if (3 <=? ff) && negb ot && it then 1          (* proxied: inner touches, entry points look at the outer tx only *)
-        else if (5 <=? ff) && is_group && negb head_t && ot then 2   (* delayed group: only the head is looked at *)
-        else if (ff =? 2) && ot && negb it && (match inner_of e b with Some _ => true | None => false end) then 3
-                                                            (* proxied: executor looks at the inner tx only *)
-        else 0 in
-      (m, s, code)
+  | Some set => check_points cks L set e b (points_of o)
   end.
+
+(** ** histories: many checks in one process
+
+    [SLoad L]: the blacklist is (re)loaded.  [SAsk h ms inner ps]: the
+    submission made of the transactions number [ms] of the case's table [txs]
+    (one = single, with the unwrapped [inner] transaction if any; several =
+    group) is observed at height [h] at the enforcement points [ps], in this
+    order, in the process state left by everything before it.  The model's
+    process state is the parsed set of the last load ([p_load]); the spec is
+    applied to every step with the list of the last load.  The known-finding
+    code is that of the first step whose spec fails. *)
+Inductive hstep :=
+| SLoad (L : list str)
+| SAsk (h : Z) (ms : list N) (inner : option N) (ps : list point).
+
+Fixpoint nths {A} (l : list A) (is : list N) : option (list A) :=
+  match is with
+  | [] => Some []
+  | i :: tl =>
+      match nth_error l (N.to_nat i), nths l tl with
+      | Some a, Some r => Some (a :: r)
+      | _, _ => None
+      end
+  end.
+
+Definition bundle_of (txs : list txf) (ms : list N) (inner : option N) : option bundle :=
+  match nths txs ms with
+  | Some [t] =>
+      match inner with
+      | None => Some (BSingle t None)
+      | Some i => match nth_error txs (N.to_nat i) with Some x => Some (BSingle t (Some x)) | None => None end
+      end
+  | Some (t :: u :: r) => Some (BGroup (t :: u :: r))
+  | _ => None
+  end.
+
+Fixpoint check_hist (cks : bytes -> bytes) (H HP : Z) (proxy : str) (txs : list txf)
+         (L : list str) (set : list bytes) (steps : list hstep) (acc : verdict) : verdict :=
+  match steps with
+  | [] => acc
+  | SLoad L' :: tl =>
+      match parse_list cks L' with
+      | None => (false, snd (fst acc), snd acc)     (* the generators only load lists that parse *)
+      | Some _ => check_hist cks H HP proxy txs L' (p_load cks set L') tl acc
+      end
+  | SAsk h ms inner ps :: tl =>
+      match bundle_of txs ms inner with
+      | None => (false, snd (fst acc), snd acc)
+      | Some b =>
+          let v := check_points cks L set (mkEnv H HP proxy h) b ps in
+          let '(m, s, code) := acc in
+          let '(m1, s1, code1) := v in
+          check_hist cks H HP proxy txs L set tl
+                     (m && m1, s && s1, if s then code1 else code)
+      end
+  end.
+
+Inductive case :=
+| CParse (tab : cktab) (L : list str) (panics : bool)
+         (probes : list (str * bool)) (raws : list (bytes * bool))
+| CName (e r : bytes)
+| CScen (tab : cktab) (L : list str) (e : env) (b : bundle) (o : obs)
+| CHist (tab : cktab) (H HP : Z) (proxy : str) (txs : list txf) (steps : list hstep).
 
 Definition check_case (c : case) : verdict :=
   match c with
@@ -125,4 +226,6 @@ Definition check_case (c : case) : verdict :=
       end
   | CName e r => mk_verdict (bytes_eqb (real_exec_name e) r) true
   | CScen tab L e b o => check_scen tab L e b o
+  | CHist tab H HP proxy txs steps =>
+      check_hist (cks_of tab) H HP proxy txs [] [] steps ok_verdict
   end.
